@@ -96,7 +96,11 @@ func (s *Sys) concreteRequest(q HReq, r *rand.Rand) (*http.Request, string) {
 		case "list":
 			body = pick(r, "7", `"str"`, "true")
 		case "get", "activate", "delete-version":
-			body = pick(r, `{"Name":5}`, `{"Name":"a","Version":"1"}`, `{"Name":"a","Version":-1}`, `{"Name":["a"]}`)
+			// ... and version numbers that do not fit the API's 32-bit version type (they must not wrap onto existing versions)
+			an := strconvQuote(s.D.Name("A"))
+			body = pick(r, `{"Name":5}`, `{"Name":"a","Version":"1"}`, `{"Name":"a","Version":-1}`, `{"Name":["a"]}`,
+				`{"Name":`+an+`,"Version":4294967297}`, `{"Name":`+an+`,"Version":4294967298,"UpdateIfChanged":true}`, `{"Name":`+an+`,"Version":18446744073709551617}`,
+				`{"Name":`+an+`,"Version":1.5}`)
 		case "put":
 			body = pick(r, `{"Name":5,"Value":"eA=="}`, `{"Name":"a","Value":"not base64!"}`, `{"Name":"a","Value":7}`)
 		default:
